@@ -2,6 +2,7 @@
 use crate::util::Ctx;
 
 pub mod real;
+pub mod c01;
 pub mod c03;
 pub mod c04;
 pub mod c11;
@@ -11,6 +12,10 @@ pub mod c20;
 
 pub fn run(ctx: &mut Ctx) -> bool {
     match ctx.id.as_str() {
+        "C01" => {
+            ctx.rule = c01::RULE.into();
+            c01::run(ctx)
+        }
         "C03" => {
             ctx.rule = c03::RULE.into();
             c03::run(ctx)
